@@ -8,7 +8,7 @@ for p in refactors/*.diff; do
   n=$(echo "$out" | grep -o "checks raising an alarm: [0-9]*" | grep -o "[0-9]*$")
   if echo "$out" | grep -q PATCH-DOES-NOT-APPLY; then echo "$(basename $p): does not apply to HEAD (skipped)"; continue; fi
   echo "$(basename $p): alarms=$n"
-  if [ "$n" != "0" ]; then bad=$((bad+1)); echo "$out" | grep "^VIOLATION\|^UNDECIDED\|^UNRESOLVED\|^---" | cut -c1-300; fi
+  if [ "$n" != "0" ]; then bad=$((bad+1)); echo "$out" | grep "^VIOLATION\|^UNDECIDED\|^UNRESOLVED\|^LOAD-ERROR\|^---" | cut -c1-300; fi
 done
 echo "refactorings raising a false alarm: $bad"
 [ $bad -eq 0 ]
